@@ -112,7 +112,8 @@ func (k Keeper) ToggleClient(
 	}
 
 	k.SetClientState(ctx, chainName, newClientState)
-	if err := clientState.Initialize(ctx, k.cdc, k.ClientStore(ctx, chainName), newConsensusState); err != nil {
+	// the client being installed initializes the store with the metadata its own type needs
+	if err := newClientState.Initialize(ctx, k.cdc, k.ClientStore(ctx, chainName), newConsensusState); err != nil {
 		return err
 	}
 	k.SetClientConsensusState(ctx, chainName, newClientState.GetLatestHeight(), newConsensusState)
